@@ -101,13 +101,13 @@ def proof_stage(pid, thorough=False):
     for t in thms:
         if not re.search(r"Print\s+Assumptions\s+%s\s*\." % re.escape(t), code):
             res["errors"].append("theorem %s has no Print Assumptions" % t)
-    targets = ["theories/%s/Properties.vo" % pid, "theories/%s/Extract.vo" % pid]
+    targets = [pid]
     cmd = [os.path.join(VERIF, "lib", "coqbuild.sh")] + targets
     res["checker_cmd"] = "lib/coqbuild.sh %s && coqc -Q theories OV build/tmp/%s_pa.v (Print Assumptions of every theorem)" % (" ".join(targets), pid)
     p = subprocess.run(cmd, stdout=subprocess.PIPE, stderr=subprocess.STDOUT, text=True)
     if p.returncode != 0:
         res["errors"].append("coq build failed:\n" + p.stdout[-3000:])
-        m = re.search(r'File "\./theories/%s/Properties\.v", line (\d+)' % pid, p.stdout)
+        m = re.search(r"theories/%s/Properties\.v\", line (\d+)" % pid, p.stdout)
         if m:
             res["failed_theorem"] = theorem_at_line(src, int(m.group(1)))
         return res
@@ -267,17 +267,20 @@ def run_impl(mod, cases, tag="i"):
 
 # ---------------------------------------------------------------- known findings
 def load_findings(pid):
-    path = os.path.join(VERIF, "KNOWN_FINDINGS.jsonl")
+    """KNOWN_FINDINGS.txt lines:
+         known: property=C10 signature=<sig> <what fails>
+         fixed: property=C01 <commit> signature=<sig> <what failed>
+       Only 'known' entries suppress anything; the file is never written at run time."""
+    path = os.path.join(VERIF, "KNOWN_FINDINGS.txt")
     known, fixed = {}, {}
     if os.path.exists(path):
         for l in open(path):
             l = l.strip()
-            if not l or l.startswith("#"):
+            m = re.match(r"^(known|fixed): property=(\S+) (?:(\S+) )?signature=(\S+) (.*)$", l)
+            if not m or m.group(2) != pid:
                 continue
-            e = json.loads(l)
-            if e.get("property") != pid:
-                continue
-            (known if e.get("status") == "known" else fixed)[e["signature"]] = e
+            e = {"what": m.group(5), "commit": m.group(3), "signature": m.group(4)}
+            (known if m.group(1) == "known" else fixed)[m.group(4)] = e
     return known, fixed
 
 
